@@ -11,6 +11,8 @@ pub trait Fld: Copy + PartialEq + core::fmt::Debug {
     fn sub(self, o: Self) -> Self;
     fn mul(self, o: Self) -> Self;
     fn inv(self) -> Option<Self>;
+    /// canonical representative as an integer (for bit decompositions)
+    fn canon(self) -> u64;
 }
 
 /// GF(p) for the tiny primes of the TLA+ models.
@@ -47,12 +49,15 @@ impl Fld for Gf {
     fn inv(self) -> Option<Self> {
         (1..self.p).find(|x| (x * self.v) % self.p == 1).map(|x| Gf::new(x, self.p))
     }
+    fn canon(self) -> u64 {
+        self.v
+    }
 }
 
 /// Wrapper making every Plonky3 field an oracle field.
 #[derive(Copy, Clone, PartialEq, Eq, Debug)]
 pub struct P3<F>(pub F);
-impl<F: p3_field::Field> Fld for P3<F> {
+impl<F: p3_field::Field + p3_field::PrimeField64> Fld for P3<F> {
     fn zero() -> Self {
         P3(F::ZERO)
     }
@@ -73,6 +78,9 @@ impl<F: p3_field::Field> Fld for P3<F> {
     }
     fn inv(self) -> Option<Self> {
         self.0.try_inverse().map(P3)
+    }
+    fn canon(self) -> u64 {
+        self.0.as_canonical_u64()
     }
 }
 
@@ -195,6 +203,20 @@ pub fn eval_program<T: Fld>(prog: &Program, pubs: &[T], privs: &[T]) -> Eval<T> 
                 let bd = lift2(h(0), d, |b, d| Some(b.mul(d)));
                 let v = lift2(h(2), bd, |s, x| Some(s.add(x)));
                 ev.handles.push(v);
+            }
+            "bits2" => {
+                // decompose_to_bits(x, 2): two hint bits of the canonical representative, each asserted
+                // boolean, and the asserted equality x = b0 + 2*b1
+                let x = h(0);
+                let bits: Option<[T; 2]> = x.map(|v| {
+                    let c = v.canon();
+                    [T::from_small(c & 1), T::from_small((c >> 1) & 1)]
+                });
+                ev.handles.push(bits.map(|b| b[0]));
+                ev.handles.push(bits.map(|b| b[1]));
+                ev.bools.push(bits.map(|b| b[0].mul(b[0].sub(T::one()))));
+                ev.bools.push(bits.map(|b| b[1].mul(b[1].sub(T::one()))));
+                ev.equalities.push(lift2(x, bits.map(|b| b[0].add(b[1].add(b[1]))), |a, r| Some(a.sub(r))));
             }
             "connect" => {
                 let r = lift2(h(0), h(1), |a, b| Some(a.sub(b)));
